@@ -42,8 +42,16 @@ def check_case(spec, seed, obs, tag='random'):
     from pydiffx.dom import DiffX
     rng = random.Random(seed)
     case = {'spec': spec, 'build_seed': seed}
+    edited = seed % 5 == 0
     try:
         tree = trees.build(spec, rng)
+        if edited:
+            # the public changes / files lists edited directly after the
+            # tree was built with add_change / add_file: the tree IS what
+            # its lists say
+            trees.reverse_in_place(tree)
+            spec = trees.reversed_spec(spec)
+            obs.count('trees_with_lists_edited_in_place')
     except Exception as e:
         obs.case(None, nontrivial=False)
         obs.violation('valid_construction_rejected:%s'
